@@ -11,7 +11,7 @@ from oqv.astutil import branch_context, call_name, method_call
 from oqv.cfg import CFG
 from oqv.dataflow import DefUse
 from oqv.forms import Poly
-from oqv.model import AnalysisError, Program, Unit, dotted, norm, walk_local
+from oqv.model import AnalysisError, Program, Unit, dotted, norm, walk_local, kw_of
 from oqv.report import Check
 from rules.c09 import Tags
 
@@ -63,7 +63,7 @@ def s1(prog: Program, chk: Check) -> None:
         chk.saw(u)
         # arguments by parameter name, however they are passed
         kw = {im_params[i]: a for i, a in enumerate(c.args) if i < len(im_params)}
-        kw.update({k.arg: k.value for k in c.keywords if k.arg})
+        kw.update(kw_of(c))
         dk = kw.get("dk")
         own_params = u.params if not isinstance(u.node, ast.Lambda) else \
             [a.arg for a in u.node.args.args]
